@@ -81,7 +81,19 @@ def run_case(cls, key, seed, ctx):
     wit = {"groups": g, "labels": y, "scores": s, "constraint": constraint, "objective": objective, "flip": flip, "grid_size": gs}
     dists = {tuple(sorted((s[i], y[i]) for i in range(len(g)) if g[i] == gv)) for gv in set(g)}
     ctx.mark(TL.signature(g, y, s, constraint, objective, flip, gs) + [fam], len(dists) >= 2, sample=wit)
-    to, X, sf = TL.fit_optimizer(g, y, s, constraint, objective, flip, gs, rng, hostile=hostile)
+    if cls == "rand" and rng.random() < 0.15 and max(abs(v) for v in s) < 1e6:
+        X = np.column_stack([np.asarray(s, float), rng.normal(size=len(y))])
+        to, s2, kind_ = TL.fit_optimizer_sklearn(g, y, X, constraint, objective, flip, gs, rng)
+        sf = g
+        # the reference enumerates the threshold rules of the scores the fitted estimator really produces
+        s = [float(v) for v in s2]
+        wit = dict(wit, estimator=kind_, scores=s)
+        ctx.ev("sklearn_estimator_fits")
+        if max(len(set(s[i] for i in range(len(s)) if g[i] == gv)) for gv in set(g)) > 14:
+            ctx.ev("skipped_too_many_score_levels_for_reference")
+            return
+    else:
+        to, X, sf = TL.fit_optimizer(g, y, s, constraint, objective, flip, gs, rng, hostile=hostile)
     p1 = np.asarray(to._pmf_predict(X, sensitive_features=sf))[:, 1]
     ya = np.asarray(y)
     groups = TL.groups_dict(g, y, s)
